@@ -101,11 +101,11 @@ IotaT(x, k0) ==
 RECURSIVE SetElem(_, _, _)
 SetElem(x, c, val) == IF IsLeaf(x) THEN [x EXCEPT !.v[c[1] - x.lo + 1] = val]
                       ELSE [x EXCEPT !.r[c[1] - x.lo + 1] = SetElem(Row(x, c[1]), Tail(c), val)]
-\* this = x*a + y*b element by element (same index ranges)
-RECURSIVE Zip2(_, _, _, _)
-Zip2(x, y, a, b) ==
-  IF IsLeaf(x) THEN [x EXCEPT !.v = [j \in 1..Len(x.v) |-> Add(Mul(x.v[j], a), Mul(y.v[j], b))]]
-  ELSE [x EXCEPT !.r = [k \in 1..Len(x.r) |-> Zip2(x.r[k], y.r[k], a, b)]]
+\* t := x*a + y*b element by element (same index ranges; t keeps its own leaf bookkeeping)
+RECURSIVE Zip3(_, _, _, _, _)
+Zip3(t, x, y, a, b) ==
+  IF IsLeaf(t) THEN [t EXCEPT !.v = [j \in 1..Len(t.v) |-> Add(Mul(x.v[j], a), Mul(y.v[j], b))]]
+  ELSE [t EXCEPT !.r = [k \in 1..Len(t.r) |-> Zip3(t.r[k], x.r[k], y.r[k], a, b)]]
 \* values of y with the leaf bookkeeping (cells) of a fresh array
 RECURSIVE Unbound(_)
 Unbound(x) == IF IsLeaf(x) THEN [x EXCEPT !.cell = 0] ELSE [x EXCEPT !.r = [k \in 1..Len(x.r) |-> Unbound(x.r[k])]]
@@ -221,9 +221,9 @@ NApply(D, st, op) ==
     [] k \in NVecOps ->
          LET Z == VecOpT(X, Y, NSym(k)) IN
          IF SameShape(Z, X) THEN NR(WithTree(st, t, Z)) ELSE NRS([st EXCEPT !.s[t] = Z])
-    [] k = "NSapyb" -> IF SameShape(X, Y) THEN NR(WithTree(st, t, Zip2(X, Y, op.a, op.b))) ELSE NE(st)
+    [] k = "NSapyb" -> IF SameShape(X, Y) THEN NR(WithTree(st, t, Zip3(X, X, Y, op.a, op.b))) ELSE NE(st)
     [] k = "NXapyb" ->   \* this.xapyb(x = other, a, y = other, b)
-         IF SameShape(X, Y) THEN NR(WithTree(st, t, Zip2(Y, Y, op.a, op.b))) ELSE NE(st)
+         IF SameShape(X, Y) THEN NR(WithTree(st, t, Zip3(X, Y, Y, op.a, op.b))) ELSE NE(st)
     [] k = "NMemSet" -> NR([st EXCEPT !.blk[op.a] = op.b, !.s[1] = PullBlk(st.s[1], [st.blk EXCEPT ![op.a] = op.b])])
     [] k = "NContig" -> NRV(st, << >>)
     [] k = "NNop" -> NR(st)
